@@ -1,7 +1,10 @@
 package main
 
 import (
+	"bufio"
 	"bytes"
+	"io"
+	"testing/iotest"
 	"fmt"
 	"strings"
 
@@ -105,12 +108,29 @@ func famC11(g *Gen, o *Out, n int, thorough bool) {
 						res += "bytes=" + hexOr(buf.Bytes()) + " "
 					}
 					rd := bytes.NewReader(append(append([]byte{}, buf.Bytes()...)))
-					back, err := index.ReadFrom(rd)
+					// read back through readers with different delivery habits: everything at once, one byte
+					// per Read, half of what is asked, a small buffered reader (what a socket or pipe does)
+					var src io.Reader = rd
+					how := g.pick(4)
+					switch how {
+					case 1:
+						src = iotest.OneByteReader(rd)
+					case 2:
+						src = iotest.HalfReader(rd)
+					case 3:
+						src = bufio.NewReaderSize(iotest.HalfReader(rd), 16)
+					}
+					back, err := index.ReadFrom(src)
 					if err != nil {
 						res += "rt=err"
 					} else {
-						res += fmt.Sprintf("rt=ok rest=%d get=%s each=%s", rd.Len(), queryIndex(back, qs), eachIndex(back))
+						rest := rd.Len()
+						if br, ok := src.(*bufio.Reader); ok {
+							rest += br.Buffered()
+						}
+						res += fmt.Sprintf("rt=ok rest=%d get=%s each=%s", rest, queryIndex(back, qs), eachIndex(back))
 					}
+					o.Count(fmt.Sprintf("readback/%d", how))
 				}
 			}
 			o.Line(fmt.Sprintf("idxser codec=%s nodup=%d recs=%s perm=%s q=%s", codec, b2i(nodup), recStr, permStr, cidsStr(qs)), res)
